@@ -43,8 +43,16 @@ type Op struct {
 	Orders []OrderRuleJ `json:"orders,omitempty"`
 	// noise: a call through some OTHER entry point of the library. Its result
 	// is not an observation; it is history that must not change any later one.
-	Noise string `json:"noise,omitempty"` // limit-query | limit-schema | fmt-schema | fmt-doc | vars | argmaps | rules | json
+	// Clock: the simulated clock / randomness streams this operation got, kept
+	// in explicit (replay) form only when the operation actually used them
+	Clock *ClockJ `json:"clock,omitempty"`
+	Noise string  `json:"noise,omitempty"` // limit-query | limit-schema | fmt-schema | fmt-doc | vars | argmaps | rules | json
 	Arg   uint64 `json:"arg,omitempty"`
+}
+
+type ClockJ struct {
+	Seed uint64 `json:"seed"`
+	Mode int32  `json:"mode"` // 0 normal, 1 fast, 2 slow, 3 jumpy
 }
 
 type NamedText struct {
@@ -167,7 +175,10 @@ func (x *execState) docSource(j int) *ast.Source {
 	return src
 }
 
+var clockReads, randDraws int
+
 type opResult struct {
+	clock      *ClockJ
 	obs        []Obs
 	visits     []verifsim.Visit
 	skipped    bool
@@ -206,6 +217,18 @@ func (x *execState) orderCfg(i int, capture bool) verifsim.OrderCfg {
 	c.Weights = s.Weights
 	c.SiteOnly = ruleIDs(s.SiteOnly)
 	return c
+}
+
+func (x *execState) clockCfg(i int) verifsim.ClockCfg {
+	s := x.sess
+	if s.Explicit {
+		if c := s.Ops[i].Clock; c != nil {
+			return verifsim.ClockCfg{Seed: c.Seed, Mode: c.Mode}
+		}
+		return verifsim.ClockCfg{}
+	}
+	seed := gen.Mix(s.OrderSeed^0xc10c, uint64(i))
+	return verifsim.ClockCfg{Seed: seed, Mode: int32(seed>>7) & 3}
 }
 
 func validateText(schema *ast.Schema, text string) (*ast.QueryDocument, gqlerror.List) {
@@ -252,6 +275,15 @@ func (x *execState) runOp(i int, capture bool) (res opResult) {
 	}
 	verifsim.BeginOp(x.orderCfg(i, capture))
 	defer func() { res.visits = verifsim.EndOp() }()
+	cc := x.clockCfg(i)
+	verifsim.BeginClock(cc)
+	defer func() {
+		if rd, dr := verifsim.ClockUse(); rd+dr > 0 {
+			res.clock = &ClockJ{cc.Seed, cc.Mode}
+			clockReads += int(rd)
+			randDraws += int(dr)
+		}
+	}()
 	verifsim.ArmOpBudget(opYieldBudget)
 	defer func() {
 		if verifsim.DisarmOpBudget() {
@@ -401,6 +433,7 @@ func (x *execState) noise(op Op) {
 var noiseKinds = []string{"limit-query", "limit-schema", "fmt-schema", "fmt-doc", "vars", "argmaps", "rules", "json", "replace-rule"}
 
 type sessionRun struct {
+	clocks     []*ClockJ // per op, when used
 	obs        []Obs
 	visits     [][]verifsim.Visit // per op
 	executed   int
@@ -411,6 +444,7 @@ func runSession(s *Session, capture bool) sessionRun {
 	x := &execState{sess: s, schemas: make([]*ast.Schema, len(s.Schemas)), docs: map[[2]int]*ast.QueryDocument{}, ssrc: map[int][]*ast.Source{}, dsrc: map[int]*ast.Source{}}
 	var r sessionRun
 	r.visits = make([][]verifsim.Visit, len(s.Ops))
+	r.clocks = make([]*ClockJ, len(s.Ops))
 	for i := range s.Ops {
 		res := x.runOp(i, capture)
 		if !res.skipped {
@@ -421,6 +455,7 @@ func runSession(s *Session, capture bool) sessionRun {
 		}
 		r.obs = append(r.obs, res.obs...)
 		r.visits[i] = res.visits
+		r.clocks[i] = res.clock
 	}
 	return r
 }
@@ -433,6 +468,7 @@ func explicitForm(s *Session, r sessionRun) *Session {
 	c.Ops = make([]Op, len(s.Ops))
 	for i, op := range s.Ops {
 		op.Orders = nil
+		op.Clock = r.clocks[i]
 		for _, v := range r.visits[i] {
 			if v.Mode == verifsim.OrdCanonical || !v.Effective {
 				continue
@@ -1001,6 +1037,8 @@ func c10Main(args []string) {
 	}
 	sort.Slice(st.EffectiveHashes, func(i, j int) bool { return st.EffectiveHashes[i] < st.EffectiveHashes[j] })
 	st.Probes["panics_recovered"] = panicsSeen
+	st.Probes["simulated_clock_readings"] = clockReads
+	st.Probes["simulated_random_draws"] = randDraws
 	st.Probes["operations_cut_off_at_yield_budget"] = opsOverBudget
 	st.OverBudgetSessions = overSessions
 	st.WallS = time.Since(t0).Seconds()
@@ -1241,6 +1279,9 @@ func classOf(s *Session, w *Witness) (string, string) {
 	for _, op := range s.Ops {
 		for _, r := range op.Orders {
 			sites[siteFileLine(r.Site)] = true
+		}
+		if op.Clock != nil {
+			sites["simulated-clock-or-randomness"] = true
 		}
 	}
 	var sl []string
